@@ -436,6 +436,8 @@ class DirectOperand(Operand):
             raise OperandTypeError(
                 "Instruction [{}] does not support direct addressing".format(self.instruction.mnemonic)
             )
+        if self.value.is_numeric() and self.value.int > (128 if self.value.is_negative() else 255):
+            raise OperandTypeError("[{}] is not in the direct page".format(self.operand_string))
         return CodePackage(
             op_code=NumericValue(self.instruction.mode.dir),
             additional=self.value,
